@@ -249,10 +249,15 @@ class _BaseProtocol(asyncio.Protocol):
         self, frame: str, num_repeats: int = 0, gap_duration: float = 0.0
     ) -> None:  # _send_frame() -> transport
         """Write to the transport."""
+
+        async def repeat_frame() -> None:
+            for _ in range(num_repeats - 1):
+                await asyncio.sleep(gap_duration)
+                await self._transport.write_frame(frame)
+
         await self._transport.write_frame(frame)
-        for _ in range(num_repeats - 1):
-            await asyncio.sleep(gap_duration)
-            await self._transport.write_frame(frame)
+        if num_repeats > 1:  # the repeats go out even once the echo has been seen
+            await asyncio.shield(repeat_frame())  # (the sender drops held-back writes)
 
     def pkt_received(self, pkt: Packet) -> None:
         """A wrapper for self._pkt_received(pkt)."""
